@@ -194,8 +194,30 @@ def run(ctx):
                 res.violation(dict(case, chart_entry=kind, arg=str(arg)[:300]), "chart-level loader differs from the documented rules", impl=str(got)[:300], expected=str(m)[:300])
     finally:
         shutil.rmtree(tmp, ignore_errors=True)
-    # known finding: unpaired trailing backslash
+    # "with strict parsing off … the result equals that of the same text with the stray text removed": the cleaned text is
+    # computed by the Lean model (MsdP.removeStray, a pure deletion of the tokens ignore_stray_text discards), the comparison is
+    # made on the implementation. C03Text.lenient_eq_strict_removeStray proves the equation under three side conditions
+    # (`removable`); where they fail the real msdparser can differ (listed finding C03-lenient-removal-joins).
+    lenient = [t for t, strict, tok, k in metas if not strict]
+    lenient += ["abc\n#:#B;", "#A:1\n;abc#:#B;", "//c\nx#A;", "x #A:1;y\n#B:2; z", "junk\n#TITLE:a;\nmore junk\n#ARTIST:b;tail"]
+    rresp = ctx.lean.eval_sharded([{"op": "msd.remove_stray", "text": t} for t in lenient])
+    joins_seen = False
+    for t, m in zip(lenient, rresp):
+        if m is None: continue
+        a = observe(lambda: simfile.loads(t, strict=False)); b = observe(lambda: simfile.loads(m["cleaned"], strict=True))
+        res.traces += 1; res.count("lenient_vs_cleaned_compared"); res.count("removable" if m["removable"] else "not_removable")
+        if m["cleaned"] != t: res.count("stray_text_removed")
+        if a != b:
+            case = {"text": t[:600], "strict": False, "cleaned": m["cleaned"][:600]}
+            if m["removable"]:
+                res.violation(case, "with strict parsing off the result differs from that of the same text with the stray text removed",
+                              impl=str(a)[:300], cleaned_strict=str(b)[:300])
+            else:
+                joins_seen = True; res.count("lenient_differs_where_removal_joins_tokens")
+    # known findings
     for f in ctx.findings:
+        if f["id"] == "C03-lenient-removal-joins":
+            res.findings_seen.append((f["id"], joins_seen, "%s: %s [%s]" % (f["id"], f["what"], f["input"])))
         if f["id"] == "C03-trailing-backslash":
             try:
                 simfile.loads("#TITLE:a\\"); fails = False
